@@ -123,8 +123,10 @@ type World struct {
 	Fired   map[string]int // fault kind -> times actually fired
 	Calls   map[string]int // op -> calls
 	LockKey []byte         // set by the world for classification
-	CompKey []byte
-	Probes  map[string]int
+	// OnHookEffect is called after a commit whose planned effect is "hook:<name>" has been applied
+	OnHookEffect func(name string)
+	CompKey      []byte
+	Probes       map[string]int
 	// LockLeaks: write batches of a lock-holding engine that were begun and never committed (see yield)
 	LockLeaks []string
 	openLazy  map[*Batch]string
@@ -592,6 +594,16 @@ func (b *Batch) Commit(ctx context.Context) error {
 	h.yield("kv.commit", k)
 	eff := h.decide("commit", e.Class, e.Task)
 	e.Fault = eff
+	hookEff := ""
+	if strings.HasPrefix(eff, "hook:") {
+		// the commit goes through; right after it the harness is told (it arms a fault somewhere else)
+		hookEff, eff = eff, ""
+		defer func() {
+			if w.OnHookEffect != nil {
+				w.OnHookEffect(hookEff)
+			}
+		}()
+	}
 	if strings.HasPrefix(eff, "delay:") {
 		// a slow engine: the call stays in flight for that much simulated time (deadlines of the
 		// caller run on the same clock), then completes normally
